@@ -191,14 +191,69 @@ def check_state_discipline(ctx, facts):
                 ctx.ok("C17.2", fn, "the topic marked dirty is the appended topic", b.relfile, md[0].line)
             else:
                 ctx.violate("C17.2", fn, "dirty-mark-topic", b.relfile, md[0].line, "the topic marked dirty is not the appended topic")
+    from .core.absint import explore_consts, Undecided as _Und
+    up = facts.body("topic_clean::TopicCleanState::update")
+    ctx.saw_body(up)
+
+    def stored_values(env0):
+        """values that `update` can store into is_clean when entered with the knowledge env0 about its argument"""
+        vals = []
+
+        def on_call(bb, t, env):
+            if not re.search(r"Atomic(::<bool>)?::store$|AtomicBool::store$", strip_generics(t.get("callee") or "")):
+                return
+            class _S:
+                pass
+            pr = provenance(up, t["args"][0])
+            if not any(o.kind == "field" and o.what[1] == "is_clean" for o in pr):
+                return
+            o = t["args"][1]
+            if o.get("k") == "const" and "val" in o:
+                vals.append(o["val"])
+            elif o.get("k") in ("move", "copy") and not o["place"]["p"]:
+                vals.append(env.get(o["place"]["l"], "unknown"))
+            else:
+                vals.append("unknown")
+        explore_consts(up, env0, on_call)
+        return vals
     for fn, want in (("topic_clean::TopicCleanTracker::mark_dirty", 0), ("topic_clean::TopicCleanTracker::mark_clean", 1)):
         b = facts.body(fn)
         ctx.saw_body(b)
         us = b.calls(re.compile(r"TopicCleanTracker::update_state$"))
-        if len(us) == 1 and const_of(b, us[0].node["args"][2]) == want:
-            ctx.ok("C17.2", fn, "calls update_state(topic, %s)" % bool(want), b.relfile, us[0].line)
+        if len(us) != 1:
+            ctx.violate("C17.2", fn, "wrong-desired-state", b.relfile, b.line, "%s does not call update_state exactly once" % fn)
+            continue
+        a2 = us[0].node["args"][2]
+        if const_of(b, a2) is not None:
+            # a boolean request: the value itself
+            if const_of(b, a2) == want:
+                ctx.ok("C17.2", fn, "calls update_state(topic, %s)" % bool(want), b.relfile, us[0].line)
+            else:
+                ctx.violate("C17.2", fn, "wrong-desired-state", b.relfile, b.line, "%s does not request the state %s" % (fn, bool(want)))
+            continue
+        # a request named by a fieldless enum constant: what `update` stores for that variant decides
+        l_ = op_local(b.resolve_copy(a2))
+        sd = b.single_def(l_) if l_ is not None else None
+        rv_ = sd[2]["rv"] if sd and sd[1] == "assign" else None
+        if not (rv_ and rv_["k"] == "agg" and rv_.get("akind") == "adt" and not rv_.get("ops")):
+            ctx.violate("C17.2", fn, "wrong-desired-state", b.relfile, b.line, "%s requests a state that is neither a boolean constant nor a constant variant" % fn)
+            continue
+        adt = facts.adts.get(rv_.get("name"))
+        names_ = [v["name"] for v in adt["variants"]] if adt else []
+        if rv_.get("variant") not in names_:
+            ctx.anchor_missing("C17.2", "enum %s of the requested state" % rv_.get("name"))
+            continue
+        vi = names_.index(rv_["variant"])
+        # update_state hands its argument on unchanged; update's second parameter is the request
+        try:
+            vals = stored_values({("variant", 2): vi})
+        except _Und as e:
+            ctx.violate("C17.2", fn, "desired-state-undecided", up.relfile, up.line, "cannot evaluate what update stores for %s::%s (%s): fail closed" % (rv_.get("name"), rv_["variant"], e))
+            continue
+        if vals and all(v == want for v in vals):
+            ctx.ok("C17.2", fn, "requests %s::%s, for which update stores %s into is_clean" % (rv_.get("name").split("::")[-1], rv_["variant"], bool(want)), b.relfile, us[0].line)
         else:
-            ctx.violate("C17.2", fn, "wrong-desired-state", b.relfile, b.line, "%s does not request the state %s" % (fn, bool(want)))
+            ctx.violate("C17.2", fn, "wrong-desired-state", b.relfile, b.line, "%s requests %s::%s, for which update stores %s into is_clean (expected %s)" % (fn, rv_.get("name").split("::")[-1], rv_["variant"], vals, bool(want)))
     for fn, m in (("walrus::Walrus::mark_topic_dirty", "mark_dirty"), ("walrus::Walrus::mark_topic_clean", "mark_clean"), ("walrus::Walrus::topic_is_clean", "topic_is_clean")):
         b = facts.body(fn)
         ctx.saw_body(b)
@@ -206,8 +261,6 @@ def check_state_discipline(ctx, facts):
             ctx.ok("C17.2", fn, "delegates to TopicCleanTracker::" + m, b.relfile, b.line)
         else:
             ctx.violate("C17.2", fn, "wrong-delegate", b.relfile, b.line, "%s does not call TopicCleanTracker::%s" % (fn, m))
-    up = facts.body("topic_clean::TopicCleanState::update")
-    ctx.saw_body(up)
     stores = [s for s in up.calls(re.compile(r"Atomic(::<bool>)?::store$"))]
     good = False
     for s in stores:
@@ -215,6 +268,16 @@ def check_state_discipline(ctx, facts):
         vsrc, _, _ = origins(up, s.node["args"][1])
         if any(o.kind == "field" and o.what[1] == "is_clean" for o in pr) and len(origin_args(vsrc)) == 1 and not origin_calls(vsrc):
             good = True
+    if not good and stores:
+        # the request may be an enum: then the value stored must be decided by the request alone
+        try:
+            ty2 = up.local_ty(2)
+            adt2 = facts.adts.get(ty2)
+            if adt2 and all(not v.get("fields") for v in adt2["variants"]):
+                per = [stored_values({("variant", 2): i_}) for i_ in range(len(adt2["variants"]))]
+                good = all(vs and len(set(vs)) == 1 and "unknown" not in vs for vs in per) and len({vs[0] for vs in per}) == 2
+        except _Und:
+            good = False
     if good:
         ctx.ok("C17.2", "topic_clean::TopicCleanState::update", "stores the desired value into is_clean", up.relfile, stores[0].line)
     else:
